@@ -49,10 +49,15 @@ def run_vector(args):
     (ours, theirs, phase, nroutes, scenario), vector = args
     H = min(ours, theirs) if ours and theirs else 0
     cfg = edev.base_config(hold=ours, routes=routes_block(nroutes))
+    mirror = scenario == 'mirror'
+    if mirror:
+        # local-as auto: the peer's OPEN is read before ours is sent; from then on an ordinary established session
+        cfg = cfg.replace('local-as 65001;', 'local-as auto;')
+        scenario = 'est'
     world_env = {'bgp.openwait': 6}
     horizon = horizon_for(H)
     with World(cfg, env=world_env) as w:
-        env = c05.Env(w, hold=theirs, script=[], config_name='active')
+        env = c05.Env(w, hold=theirs, script=[], config_name='mirror' if mirror else 'active')
         if scenario == 'no-open':
             establish(w, env, send_open=False)
         elif scenario == 'no-keepalive':
@@ -222,10 +227,10 @@ def plan(tier):
     p += [(9, 9, 0.05, 0, 'no-open', 0), (9, 9, 0.05, 0, 'no-keepalive', 0), (3, 3, 0.05, 0, 'no-keepalive', 0)]
     # the default hold time (180 s) and large ones on a coarse grid: the arithmetic must not depend on H being small
     if tier == 'quick':
-        p += [(180, 180, 0.05, 0, 'est', 1, 45), (180, 90, 0.5, 0, 'est', 0)]
+        p += [(180, 180, 0.05, 0, 'est', 1, 45), (180, 90, 0.5, 0, 'est', 0), (9, 9, 0.05, 0, 'mirror', 1), (3, 9, 0.95, 0, 'mirror', 2)]
     else:
         p += [(180, 180, 0.05, 0, 'est', 2, 30), (180, 90, 0.5, 0, 'est', 1, 15), (3600, 3600, 0.05, 0, 'est', 1, 900), (3600, 240, 0.05, 0, 'est', 1, 60),
-              (65535, 65535, 0.05, 0, 'est', 0), (65535, 0, 0.05, 0, 'est', 0)]
+              (65535, 65535, 0.05, 0, 'est', 0), (65535, 0, 0.05, 0, 'est', 0), (9, 9, 0.05, 0, 'mirror', 3), (3, 9, 0.95, 0, 'mirror', 3), (9, 0, 0.05, 0, 'mirror', 1)]
     return p
 
 
@@ -247,7 +252,7 @@ def run(ctx: core.Ctx) -> None:
             horizon = horizon_for(H)
             params = (ours, theirs, phase, nroutes, scenario)
             vecs = list(vectors(horizon, k, stride=stride))
-            if (scenario == 'est' or scenario.startswith('slow-ka')) and k >= 1 and stride == 1:
+            if (scenario in ('est', 'mirror') or scenario.startswith('slow-ka')) and k >= 1 and stride == 1:
                 vecs += [((sec, 'B'),) for sec in range(horizon)]
                 if H:
                     # dense inbound streams lasting longer than a keepalive interval / longer than the hold time
